@@ -281,7 +281,7 @@ func runC17(r *Rand, tier string, o *Out) {
 				removed = append(removed, sl)
 				o.Count("op:remove")
 			case k < 40:
-				o.Do("P", fmt.Sprintf("ep.remove %d", []int{57, 1000, 9, 31}[r.Intn(4)]), true)
+				o.Do("P", fmt.Sprintf("ep.remove %d", []int{57, 1000, 9, 31, 10, 11, 12, 25, 10, 10}[r.Intn(10)]), true) // 10: the first id past a table that has not grown
 				o.Count("op:remove-unknown")
 			case k < 46 && len(removed) > 0:
 				o.Do("P", fmt.Sprintf("ep.remove %d", removed[r.Intn(len(removed))]), true)
